@@ -82,6 +82,7 @@ func (c *conn) sendHandle(msg pmpx.Message) status.Status {
 		if ok {
 			ch.free()
 		}
+		vtr("sl.done", id, 0, 0)
 	}
 
 	return status.OK
